@@ -60,7 +60,7 @@ ASSUMPTIONS = [
     "scale families are judged relative to max|data| like every other case (pedestal cases therefore test accumulation precision, not contrast recovery)",
     "class 7 of the widening list (containers with mixed members) does not apply: the Dataset operations take one array",
 ]
-BUDGET = {"quick": {"soft_s": 110}, "thorough": {"soft_s": 560}}
+BUDGET = {"quick": {"soft_s": 300}, "thorough": {"soft_s": 1200}}
 MIN_EVALUATIONS = {"quick": 3000, "thorough": 50000}
 REQUIRED_COUNTERS = ["eval:write_reaches_other_dataset", "eval:invalid_call_must_raise", "eval:invalid_call_state_unchanged", "eval:class_invariant", "eval:model_data", "eval:model_origin", "eval:model_sampling", "eval:model_class", "eval:source_unchanged", "eval:twin_array", "eval:twin_calibration", "eval:invalid_must_raise", "eval:invalid_state_unchanged"]
 EXHAUSTIVE = {"quick": False, "thorough": False}  # the bounded-exhaustive part is complete (see coverage.bounded_exhaustive); the random part is sampling
